@@ -94,8 +94,10 @@ pub fn run<R>(net: &NetHandle, cfg: &SimConfig, f: impl for<'a> FnOnce(&'a MainD
     let cw = CountWaker::new();
     let waker = crate::util::waker_of(&cw);
 
-    // Frames in flight: (delivery time, bytes)
+    // Frames in flight: (delivery time, bytes), in send order
     let mut in_flight: Vec<(u64, Vec<u8>)> = Vec::new();
+    let mut max_in_flight = 0usize;
+    let mut overtakes = 0u64;
     let mut frames = 0u64;
 
     loop {
@@ -135,6 +137,8 @@ pub fn run<R>(net: &NetHandle, cfg: &SimConfig, f: impl for<'a> FnOnce(&'a MainD
                 let lat = if cfg.latencies.is_empty() { cfg.latency_us } else { cfg.latencies[(frames as usize - 1) % cfg.latencies.len()] };
 
                 in_flight.push((now + lat.max(1), resp));
+                max_in_flight = max_in_flight.max(in_flight.len());
+                net.borrow_mut().stats.max_in_flight = max_in_flight;
             }
         }
 
@@ -153,6 +157,13 @@ pub fn run<R>(net: &NetHandle, cfg: &SimConfig, f: impl for<'a> FnOnce(&'a MainD
                 vclock::advance_to(tf);
 
                 let i = in_flight.iter().position(|(t, _)| *t == tf).unwrap();
+
+                if i > 0 {
+                    // a frame sent earlier is still on its way
+                    overtakes += 1;
+                    net.borrow_mut().stats.overtakes = overtakes;
+                }
+
                 let (_, bytes) = in_flight.remove(i);
                 let _ = rx.receive_frame(&bytes);
             }
